@@ -768,8 +768,14 @@ impl Feed {
         match self {
             Feed::File => "FdFile".into(),
             Feed::Fifo(sizes, _) => {
-                let v: Vec<String> = sizes.iter().map(|n| coq::nat(*n)).collect();
-                format!("(FdFifo {})", coq::list(&v))
+                if sizes.is_empty() {
+                    "(FdFifo nil)".into()
+                } else if sizes.iter().all(|n| *n == 1) {
+                    format!("(FdFifo (ones {}))", coq::nat(sizes.len()))
+                } else {
+                    let v: Vec<String> = sizes.iter().map(|n| n.to_string()).collect();
+                    format!("(FdFifo [{}]%nat)", v.join("; "))
+                }
             }
             Feed::CmdString => "FdString".into(),
             Feed::ScriptFile => "FdScript".into(),
@@ -1132,7 +1138,7 @@ fn main() {
     }
 
     // 2. random scripts, all ways of feeding
-    let n_random = args.scale(260, 6000);
+    let n_random = args.scale(260, 4000);
     for i in 0..n_random {
         let mut r = rng.fork(1000 + i as u64);
         let lines = Gen { r: &mut r, key: 0 }.script_lines(if args.thorough() { 6 } else { 5 });
@@ -1143,7 +1149,7 @@ fn main() {
     }
 
     // 2b. alias definitions / option changes that affect how later lines are parsed
-    let n_state = args.scale(80, 1500);
+    let n_state = args.scale(80, 1000);
     for i in 0..n_state {
         let mut r = rng.fork(300_000 + i as u64);
         let lines = Gen { r: &mut r, key: 0 }.stateful_lines();
@@ -1158,7 +1164,7 @@ fn main() {
     }
 
     // 3. a syntax error planted at every later line of a script
-    let n_plant = args.scale(25, 500);
+    let n_plant = args.scale(25, 350);
     for i in 0..n_plant {
         let mut r = rng.fork(500_000 + i as u64);
         let lines = Gen { r: &mut r, key: 0 }.script_lines(4);
